@@ -223,7 +223,7 @@ def _search(prop, seed, failures, tier="quick"):
         p = None
         total = 0
         for sd in seeds:
-            p = subprocess.run([exe, prop, str(sd)], capture_output=True, text=True, timeout=900, env=env2)
+            p = subprocess.run([exe, prop, str(sd)], capture_output=True, text=True, timeout=300, env=env2)
             mm = re.search(r"evaluated=(\d+)", p.stdout)
             total += int(mm.group(1)) if mm else 0
             if "FOUND " in p.stdout or "NONE" not in p.stdout:
